@@ -102,6 +102,7 @@ def judge_decider(I, its, cls, eb, kind, m, undecided=None):
     if undecided is None:
         undecided = []
     need = cls['need']
+    beyond = []
     for it in its:
         if it.kind == 'unreachable':
             continue
@@ -113,7 +114,13 @@ def judge_decider(I, its, cls, eb, kind, m, undecided=None):
         if kind == 'validator':
             if acc:
                 if not (it.kind == 'backedge' and st.is_eq0(it.din - need * eb) is True):
-                    bad.append('expected accept of %d unit(s), got %s' % (need, describe(it, eb)))
+                    more = consumed_beyond(I, it, need, eb) if it.kind == 'backedge' else None
+                    if more is None:
+                        bad.append('expected accept of %d unit(s), got %s' % (need, describe(it, eb)))
+                    elif more[0] == 'bad':
+                        beyond.append((len(more[1]), more[1]))
+                    elif more[0] == 'und':
+                        undecided.append(more[1])
             else:
                 if not (it.kind == 'ret' and ret_code(it) not in (None, 0)):
                     bad.append('expected rejection, got %s' % describe(it, eb))
@@ -157,7 +164,59 @@ def judge_decider(I, its, cls, eb, kind, m, undecided=None):
                     isinstance(vals[0], IntV) and not vals[0].lin.t and vals[0].lin.c == 0xFFFD
                 if not ok:
                     bad.append('expected U+FFFD for exactly one unit, got %s' % describe(it, eb))
-    return bad
+    return bad + [t for (_k, t) in sorted(beyond)]         # shortest stepped-over run first
+
+
+def consumed_beyond(I, it, need, eb):
+    """An accepting iteration that moves the cursor further than the sequence at the cursor (a validator that steps over a run of
+    units at a time).  That is right iff every further unit is itself acceptable; decided here: a unit that is stepped over
+    without having been read on this path is accepted whatever it is - a finding, the witness being a stray continuation unit
+    there.  ('ok',) / ('bad', text) / ('und', text) / None (fewer units than the sequence: not this case)."""
+    st = it.st
+    d = it.din
+    if d is None or d.t or d.c <= need * eb or d.c % eb or d.c > 4096:
+        if d is not None and (d.t or d.c > need * eb):
+            return ('und', 'an accepting iteration moves the cursor by %r bytes: the units stepped over are not judged' % (d,))
+        return None
+    base = Lin.atom('cur').scale(eb)
+    read = set()
+    for e in st.events:
+        if e[0] == 'in-load' and isinstance(e[2], Lin):
+            o = e[2] - base
+            if not o.t and o.c % eb == 0:
+                read.add(o.c // eb)
+        elif e[0] == 'copy' and isinstance(e[3], PtrV) and e[3].obj == 'IN' and isinstance(e[4], Lin):
+            o = e[3].off - base
+            if not o.t and not e[4].t:
+                for b in range(o.c, o.c + e[4].c, eb):
+                    read.add(b // eb)
+            else:
+                return ('und', 'an accepting iteration moves the cursor by %d bytes after a bulk read of unknown extent' % d.c)
+    units = d.c // eb
+    blind = [j for j in range(need, units) if j not in read]
+    # ... and lies inside the input on this path (a cursor stepping beyond the end consumes nothing)
+    inside = []
+    for j in blind:
+        room = Lin.atom('n') - Lin.atom('cur') - j - 1
+        if st.is_ge0(room) is True:
+            inside.append(j)
+        elif st.is_ge0(room) is None:
+            env = st.find_model([room], lambda v: v[0] >= 0)
+            if env is not None:
+                inside.append(j)
+    if blind and not inside:
+        if all(st.is_ge0(Lin.atom('cur') + j - Lin.atom('n')) is True for j in blind):
+            return ('ok',)
+        return ('und', 'steps over unit[cur+%d] unread; whether it lies inside the input on that path is not decided' % blind[0])
+    blind = inside
+    if blind:
+        return ('bad', 'accepts and steps over %d unit(s) in one iteration, but unit[cur+%d] is never read on that path: whatever stands '
+                'there is accepted unexamined (e.g. a stray continuation unit 0x80, which must be rejected); witness: %d ASCII units followed by 0x80' %
+                (units, blind[0], blind[0]))
+    plain = all(conv.unit_atom(eb, j) in st.rng and st.rng[conv.unit_atom(eb, j)][1] < 0x80 for j in range(need, units))
+    if plain:
+        return ('ok',)
+    return ('und', 'accepts and steps over %d units in one iteration, all of them read: whether each is acceptable is not decided' % units)
 
 
 def substitute_bytes(st, p):
